@@ -97,3 +97,4 @@ pub fn main_with(run: impl FnOnce(&mut Ctx)) {
     run(&mut ctx);
     ctx.out.flush().expect("flush");
 }
+pub mod expr;
